@@ -72,7 +72,9 @@ class IndexOperator(AbstractLinearOperator):
             )
         self.unique_indices = unique_indices
         self._in_structure = in_structure
-        self._out_structure = out_structure or AbstractLinearOperator.out_structure(self)
+        self._out_structure = out_structure
+        if out_structure is None:
+            self._out_structure = AbstractLinearOperator.out_structure(self)
 
     def mv(self, x: PyTree[Inexact[Array, ' _a']]) -> PyTree[Inexact[Array, ' _b']]:
         return jax.tree.map(lambda leaf: leaf[self.indices], x)
